@@ -81,6 +81,18 @@ func modelCheck(o *op, r obs) error {
 			if nr := normalize(o, r); r.Err != "" || !strings.HasPrefix(string(nr.Str), "<valid") {
 				return failf(sig, "%s = (%q, %s %q), want a valid %d-word mnemonic", desc, string(r.Str), r.Err, string(r.ErrMsg), n)
 			}
+			seen := map[string]bool{string(r.Str): true}
+			for i, m := range r.All {
+				toks := strings.Split(m, rl.Sep())
+				idx, known := ref.TokensIndices(rl, toks)
+				if len(toks) != n || !known || !ref.IndicesValid(idx) {
+					return failf(sig+" repeated", "repetition %d of %s returned %q, which is not a valid %d-word %s mnemonic", i+1, desc, m, n, rl)
+				}
+				if seen[m] {
+					return failf(sig+" repeated", "repetition %d of %s returned %q a second time", i+1, desc, m)
+				}
+				seen[m] = true
+			}
 		case len(o.Source) >= need:
 			if want := ref.Encode(o.Source[:need], rl); r.Err != "" || string(r.Str) != want {
 				return failf(sig, "%s = (%q, %s %q), want (%q, nil)", desc, string(r.Str), r.Err, string(r.ErrMsg), want)
